@@ -1,25 +1,67 @@
 import FormulaicVerif.Spec.Variables
 /-! Helper lemmas for C17: the breadth-first extraction terminates within its budget and reports
-exactly the occurrences `Spec.Variables.occs` enumerates depth first. Not obligations. -/
+exactly the FREE occurrences `Spec.Variables.occs` enumerates depth first (the queue carries the
+locally bound names; the specification removes bound occurrences at the binder). Not obligations. -/
 namespace FormulaicVerif.Proofs.C17
 open FormulaicVerif.Model.Variables FormulaicVerif.Spec.Variables
 
-/-! ### chains -/
-theorem chainName_eq : ∀ (e : Expr), chainName e = (chainOcc e).map (·.2)
-  | .name id => rfl
-  | .attr v a => by simp only [chainName, chainOcc, chainName_eq v, Option.map_map]; rfl
-  | .const _ => rfl
-  | .call _ _ _ => rfl
-  | .unop _ _ => rfl
-  | .binop _ _ _ => rfl
-  | .subscript _ _ => rfl
-  | .seq _ _ => rfl
+/-! ### filtering by bound names -/
+theorem mem_without_iff (b xs : List String) (x : String) :
+    x ∈ without b xs ↔ x ∈ xs ∧ b.contains x = false := by
+  simp [without, List.mem_filter]
 
-theorem chain_freeNames : ∀ (e : Expr) (p : String × String), chainOcc e = some p → freeNames e = [p.1]
-  | .name id, p, h => by simp only [chainOcc, Option.some.injEq] at h; subst h; rfl
+theorem mem_freeOf_iff (b : List String) (os : List Occ) (o : Occ) :
+    o ∈ freeOf b os ↔ o ∈ os ∧ b.contains o.base = false := by
+  simp [freeOf, List.mem_filter]
+
+theorem freeOf_append (b : List String) (xs ys : List Occ) :
+    freeOf b (xs ++ ys) = freeOf b xs ++ freeOf b ys := by simp [freeOf]
+
+theorem freeOf_nil_left (os : List Occ) : freeOf [] os = os := by simp [freeOf]
+
+theorem freeOf_freeOf (b c : List String) (os : List Occ) :
+    freeOf b (freeOf c os) = freeOf (b ++ c) os := by
+  simp only [freeOf, List.filter_filter]
+  congr 1
+  funext o
+  by_cases h1 : o.base ∈ b <;> by_cases h2 : o.base ∈ c <;> simp [h1, h2]
+
+/-- the names of a list are exactly the bases of a list of occurrences -/
+def Rel (xs : List String) (os : List Occ) : Prop := ∀ x, x ∈ xs ↔ ∃ o ∈ os, o.base = x
+
+theorem Rel.nil : Rel [] [] := fun x => by simp
+
+theorem Rel.append {xs ys : List String} {os ps : List Occ} (h1 : Rel xs os) (h2 : Rel ys ps) :
+    Rel (xs ++ ys) (os ++ ps) := by
+  intro x
+  simp only [List.mem_append, h1 x, h2 x]
+  constructor
+  · rintro (⟨o, ho, hb⟩ | ⟨o, ho, hb⟩)
+    · exact ⟨o, Or.inl ho, hb⟩
+    · exact ⟨o, Or.inr ho, hb⟩
+  · rintro ⟨o, (h | h), hb⟩
+    · exact Or.inl ⟨o, h, hb⟩
+    · exact Or.inr ⟨o, h, hb⟩
+
+theorem Rel.without {xs : List String} {os : List Occ} (b : List String) (h : Rel xs os) :
+    Rel (without b xs) (freeOf b os) := by
+  intro x
+  simp only [mem_without_iff, h x, mem_freeOf_iff]
+  constructor
+  · rintro ⟨⟨o, ho, hb⟩, hx⟩
+    exact ⟨o, ⟨ho, by rw [hb]; exact hx⟩, hb⟩
+  · rintro ⟨o, ⟨ho, hx⟩, hb⟩
+    exact ⟨⟨o, ho, hb⟩, by rw [← hb]; exact hx⟩
+
+theorem Rel.single (id chainName : String) (c : Bool) : Rel [id] [⟨id, chainName, c⟩] := by
+  intro x; simp [eq_comm]
+
+/-! ### chains -/
+theorem chain_freeNames : ∀ (e : Expr) (p : String × String), chain e = some p → freeNames e = [p.1]
+  | .name id, p, h => by simp only [chain, Option.some.injEq] at h; subst h; rfl
   | .attr v a, p, h => by
-    simp only [chainOcc] at h
-    cases hv : chainOcc v with
+    simp only [chain] at h
+    cases hv : chain v with
     | none => rw [hv] at h; cases h
     | some q =>
       rw [hv] at h
@@ -32,137 +74,176 @@ theorem chain_freeNames : ∀ (e : Expr) (p : String × String), chainOcc e = so
   | .binop _ _ _, _, h => by cases h
   | .subscript _ _, _, h => by cases h
   | .seq _ _, _, h => by cases h
+  | .lambda _ _ _, _, h => by cases h
+  | .comp _ _ _, _, h => by cases h
 
-/-! ### every `Name` node is an occurrence -/
+theorem chain_strictNames : ∀ (e : Expr) (p : String × String), chain e = some p → strictNames e = [p.1]
+  | .name id, p, h => by simp only [chain, Option.some.injEq] at h; subst h; rfl
+  | .attr v a, p, h => by
+    simp only [chain] at h
+    cases hv : chain v with
+    | none => rw [hv] at h; cases h
+    | some q =>
+      rw [hv] at h
+      simp only [Option.map_some, Option.some.injEq] at h
+      subst h
+      simpa [strictNames] using chain_strictNames v q hv
+  | .const _, _, h => by cases h
+  | .call _ _ _, _, h => by cases h
+  | .unop _ _, _, h => by cases h
+  | .binop _ _ _, _, h => by cases h
+  | .subscript _ _, _, h => by cases h
+  | .seq _ _, _, h => by cases h
+  | .lambda _ _ _, _, h => by cases h
+  | .comp _ _ _, _, h => by cases h
+
+/-! ### every free `Name` node is an occurrence -/
 mutual
-theorem mem_freeNames_iff (x : String) : ∀ (e : Expr), x ∈ freeNames e ↔ ∃ o ∈ occs e, o.base = x
-  | .name id => by simp [freeNames, occs, eq_comm]
-  | .const _ => by simp [freeNames, occs]
+theorem rel_freeNames : ∀ (e : Expr), Rel (freeNames e) (occs e)
+  | .name id => by simpa [freeNames, occs] using Rel.single id id false
+  | .const _ => by simpa [freeNames, occs] using Rel.nil
   | .attr v a => by
     simp only [freeNames, occs]
     cases h : chainOcc (.attr v a) with
     | some p =>
       have := chain_freeNames (.attr v a) p h
       simp only [freeNames] at this
-      simp [this, eq_comm]
-    | none => exact mem_freeNames_iff x v
+      rw [this]
+      exact Rel.single _ _ _
+    | none => exact rel_freeNames v
   | .call f args kws => by
     simp only [freeNames, occs]
     cases h : chainOcc f with
     | some p =>
       have := chain_freeNames f p h
-      simp only [List.mem_append, List.mem_cons, this, List.not_mem_nil, or_false,
-        mem_freeNamesList_iff x args, mem_freeNamesKws_iff x kws]
-      constructor
-      · rintro ((h1 | h2) | h3)
-        · exact ⟨_, Or.inl rfl, h1.symm⟩
-        · obtain ⟨o, ho, hb⟩ := h2; exact ⟨o, Or.inr (Or.inl ho), hb⟩
-        · obtain ⟨o, ho, hb⟩ := h3; exact ⟨o, Or.inr (Or.inr ho), hb⟩
-      · rintro ⟨o, (h1 | h2 | h3), hb⟩
-        · subst h1; exact Or.inl (Or.inl hb.symm)
-        · exact Or.inl (Or.inr ⟨o, h2, hb⟩)
-        · exact Or.inr ⟨o, h3, hb⟩
+      rw [this, List.append_assoc]
+      exact Rel.append (Rel.single _ _ _) (Rel.append (rel_freeNamesList args) (rel_freeNamesKws kws))
     | none =>
-      simp only [List.mem_append, mem_freeNames_iff x f, mem_freeNamesList_iff x args,
-        mem_freeNamesKws_iff x kws]
-      constructor
-      · rintro ((⟨o, ho, hb⟩ | ⟨o, ho, hb⟩) | ⟨o, ho, hb⟩)
-        · exact ⟨o, Or.inl ho, hb⟩
-        · exact ⟨o, Or.inr (Or.inl ho), hb⟩
-        · exact ⟨o, Or.inr (Or.inr ho), hb⟩
-      · rintro ⟨o, (h1 | h2 | h3), hb⟩
-        · exact Or.inl (Or.inl ⟨o, h1, hb⟩)
-        · exact Or.inl (Or.inr ⟨o, h2, hb⟩)
-        · exact Or.inr ⟨o, h3, hb⟩
-  | .unop _ y => by simpa [freeNames, occs] using mem_freeNames_iff x y
+      rw [List.append_assoc]
+      exact Rel.append (rel_freeNames f) (Rel.append (rel_freeNamesList args) (rel_freeNamesKws kws))
+  | .unop _ y => by simpa [freeNames, occs] using rel_freeNames y
   | .binop _ l r => by
-    simp only [freeNames, occs, List.mem_append, mem_freeNames_iff x l, mem_freeNames_iff x r]
-    constructor
-    · rintro (⟨o, ho, hb⟩ | ⟨o, ho, hb⟩)
-      · exact ⟨o, Or.inl ho, hb⟩
-      · exact ⟨o, Or.inr ho, hb⟩
-    · rintro ⟨o, (h1 | h2), hb⟩
-      · exact Or.inl ⟨o, h1, hb⟩
-      · exact Or.inr ⟨o, h2, hb⟩
+    simp only [freeNames, occs]; exact Rel.append (rel_freeNames l) (rel_freeNames r)
   | .subscript v i => by
-    simp only [freeNames, occs, List.mem_append, mem_freeNames_iff x v, mem_freeNames_iff x i]
-    constructor
-    · rintro (⟨o, ho, hb⟩ | ⟨o, ho, hb⟩)
-      · exact ⟨o, Or.inl ho, hb⟩
-      · exact ⟨o, Or.inr ho, hb⟩
-    · rintro ⟨o, (h1 | h2), hb⟩
-      · exact Or.inl ⟨o, h1, hb⟩
-      · exact Or.inr ⟨o, h2, hb⟩
-  | .seq _ es => by simpa [freeNames, occs] using mem_freeNamesList_iff x es
-theorem mem_freeNamesList_iff (x : String) :
-    ∀ (es : List Expr), x ∈ freeNamesList es ↔ ∃ o ∈ occsList es, o.base = x
-  | [] => by simp [freeNamesList, occsList]
+    simp only [freeNames, occs]; exact Rel.append (rel_freeNames v) (rel_freeNames i)
+  | .seq _ es => by simpa [freeNames, occs] using rel_freeNamesList es
+  | .lambda ps ds body => by
+    simp only [freeNames, occs]
+    exact Rel.append (rel_freeNamesList ds) (Rel.without ps (rel_freeNames body))
+  | .comp _ elts gens => by
+    simp only [freeNames, occs]
+    exact Rel.append (Rel.without _ (rel_freeNamesList elts)) (rel_freeNamesGens _ true gens)
+theorem rel_freeNamesList : ∀ (es : List Expr), Rel (freeNamesList es) (occsList es)
+  | [] => by simpa [freeNamesList, occsList] using Rel.nil
   | e :: es => by
-    simp only [freeNamesList, occsList, List.mem_append, mem_freeNames_iff x e, mem_freeNamesList_iff x es]
-    constructor
-    · rintro (⟨o, ho, hb⟩ | ⟨o, ho, hb⟩)
-      · exact ⟨o, Or.inl ho, hb⟩
-      · exact ⟨o, Or.inr ho, hb⟩
-    · rintro ⟨o, (h1 | h2), hb⟩
-      · exact Or.inl ⟨o, h1, hb⟩
-      · exact Or.inr ⟨o, h2, hb⟩
-theorem mem_freeNamesKws_iff (x : String) :
-    ∀ (ks : List (String × Expr)), x ∈ freeNamesKws ks ↔ ∃ o ∈ occsKws ks, o.base = x
-  | [] => by simp [freeNamesKws, occsKws]
+    simp only [freeNamesList, occsList]; exact Rel.append (rel_freeNames e) (rel_freeNamesList es)
+theorem rel_freeNamesKws : ∀ (ks : List (String × Expr)), Rel (freeNamesKws ks) (occsKws ks)
+  | [] => by simpa [freeNamesKws, occsKws] using Rel.nil
   | k :: ks => by
-    simp only [freeNamesKws, occsKws, List.mem_append, mem_freeNames_iff x k.2, mem_freeNamesKws_iff x ks]
-    constructor
-    · rintro (⟨o, ho, hb⟩ | ⟨o, ho, hb⟩)
-      · exact ⟨o, Or.inl ho, hb⟩
-      · exact ⟨o, Or.inr ho, hb⟩
-    · rintro ⟨o, (h1 | h2), hb⟩
-      · exact Or.inl ⟨o, h1, hb⟩
-      · exact Or.inr ⟨o, h2, hb⟩
+    simp only [freeNamesKws, occsKws]; exact Rel.append (rel_freeNames k.2) (rel_freeNamesKws ks)
+theorem rel_freeNamesGens (T : List String) :
+    ∀ (first : Bool) (gs : List Gen), Rel (freeNamesGens T first gs) (occsGens T first gs)
+  | _, [] => by simpa [freeNamesGens, occsGens] using Rel.nil
+  | first, .mk _ it ifs :: gs => by
+    simp only [freeNamesGens, occsGens]
+    refine Rel.append (Rel.append ?_ (Rel.without T (rel_freeNamesList ifs))) (rel_freeNamesGens T false gs)
+    cases first
+    · simpa using Rel.without T (rel_freeNames it)
+    · simpa using rel_freeNames it
 end
 
+theorem mem_freeNames_iff (x : String) (e : Expr) : x ∈ freeNames e ↔ ∃ o ∈ occs e, o.base = x :=
+  rel_freeNames e x
 
 /-! ### the queue -/
 def itemOccs : Item → List Occ
-  | .node e => occs e
-  | .kw v => occs v
+  | .node e b => freeOf b (occs e)
+  | .kw v b => freeOf b (occs v)
 
 def queueOccs (q : List Item) : List Occ := q.flatMap itemOccs
 
 theorem queueOccs_append (a b : List Item) : queueOccs (a ++ b) = queueOccs a ++ queueOccs b := by
   simp [queueOccs]
 
-theorem queueOccs_nodes (es : List Expr) : queueOccs (es.map Item.node) = occsList es := by
+theorem queueOccs_cons (it : Item) (q : List Item) : queueOccs (it :: q) = itemOccs it ++ queueOccs q := by
+  simp [queueOccs]
+
+theorem queueOccs_nodes (b : List String) (es : List Expr) :
+    queueOccs (es.map (fun e => Item.node e b)) = freeOf b (occsList es) := by
   induction es with
   | nil => rfl
   | cons e es ih =>
-    simp only [queueOccs, List.map_cons, List.flatMap_cons, itemOccs, occsList] at ih ⊢
-    rw [ih]
+    simp only [List.map_cons, queueOccs_cons, itemOccs, occsList, freeOf_append, ih]
 
-theorem queueOccs_kws (ks : List (String × Expr)) :
-    queueOccs (ks.map (fun k => Item.kw k.2)) = occsKws ks := by
+theorem queueOccs_kws (b : List String) (ks : List (String × Expr)) :
+    queueOccs (ks.map (fun k => Item.kw k.2 b)) = freeOf b (occsKws ks) := by
   induction ks with
   | nil => rfl
   | cons k ks ih =>
-    simp only [queueOccs, List.map_cons, List.flatMap_cons, itemOccs, occsKws] at ih ⊢
-    rw [ih]
+    simp only [List.map_cons, queueOccs_cons, itemOccs, occsKws, freeOf_append, ih]
 
-theorem queueOccs_children (e : Expr) (h : chainOcc e = none) (hc : ∀ f a k, e = .call f a k → chainOcc f = none) :
-    queueOccs (children e) = occs e := by
+/-- the generators: what is queued with the inner names is what the specification filters by the
+targets and then by the outer names -/
+theorem queueOccs_genItems (b : List String) (T : List String) :
+    ∀ (first : Bool) (gs : List Gen),
+      queueOccs (genItems b (b ++ T) first gs) = freeOf b (occsGens T first gs)
+  | _, [] => rfl
+  | first, .mk _ it ifs :: gs => by
+    simp only [genItems, queueOccs_cons, queueOccs_append, itemOccs, queueOccs_nodes, occsGens,
+      freeOf_append, queueOccs_genItems b T false gs]
+    cases first <;> simp [freeOf_freeOf]
+
+theorem queueOccs_children (b : List String) (e : Expr) (h : chainOcc e = none)
+    (hc : ∀ f a k, e = .call f a k → chainOcc f = none) :
+    queueOccs (children b e) = freeOf b (occs e) := by
   cases e with
-  | name id => simp [chainOcc] at h
+  | name id => simp [chainOcc, chain] at h
   | const r => rfl
   | attr v a => simp [children, queueOccs, itemOccs, occs, h]
   | call f args kws =>
     have hf := hc f args kws rfl
-    simp only [children, occs, hf]
-    have : (Item.node f :: (args.map Item.node ++ kws.map (fun k => Item.kw k.2)))
-        = [Item.node f] ++ (args.map Item.node ++ kws.map (fun k => Item.kw k.2)) := rfl
-    rw [this, queueOccs_append, queueOccs_append, queueOccs_nodes, queueOccs_kws]
-    simp [queueOccs, itemOccs]
+    simp only [children, occs, hf, queueOccs_cons, queueOccs_append, queueOccs_nodes, queueOccs_kws,
+      itemOccs, freeOf_append]
   | unop o x => simp [children, queueOccs, itemOccs, occs]
-  | binop o l r => simp [children, queueOccs, itemOccs, occs]
-  | subscript v i => simp [children, queueOccs, itemOccs, occs]
-  | seq k es => simpa [children, occs] using queueOccs_nodes es
+  | binop o l r => simp [children, queueOccs, itemOccs, occs, freeOf_append]
+  | subscript v i => simp [children, queueOccs, itemOccs, occs, freeOf_append]
+  | seq k es => simpa [children, occs] using queueOccs_nodes b es
+  | lambda ps ds body =>
+    simp only [children, occs, queueOccs_append, queueOccs_nodes, queueOccs_cons, itemOccs,
+      freeOf_append, freeOf_freeOf]
+    simp [queueOccs]
+  | comp k elts gens =>
+    simp only [children, occs, queueOccs_append, queueOccs_nodes, queueOccs_genItems, freeOf_append,
+      freeOf_freeOf]
+
+/-- a chain node that is reported unless its root is bound -/
+theorem chain_case (aliases : List (String × String)) (b : List String) (base n : String) (callable : Bool)
+    (more : List Item) (rest : List Occ) (hq : queueOccs more = freeOf b rest) :
+    ∃ (ho : Option Occ),
+      (if b.contains base then none
+        else some (Occ.toVar aliases ⟨base, n, callable⟩)) = ho.map (Occ.toVar aliases) ∧
+      ∀ o, o ∈ freeOf b (⟨base, n, callable⟩ :: rest) ↔ (ho = some o ∨ o ∈ queueOccs more) := by
+  cases hb : b.contains base with
+  | true =>
+    refine ⟨none, by simp, fun o => ?_⟩
+    rw [hq]
+    simp only [mem_freeOf_iff, List.mem_cons, reduceCtorEq, false_or]
+    constructor
+    · rintro ⟨(h1 | h2), h3⟩
+      · subst h1; rw [hb] at h3; cases h3
+      · exact ⟨h2, h3⟩
+    · rintro ⟨h2, h3⟩; exact ⟨Or.inr h2, h3⟩
+  | false =>
+    refine ⟨some ⟨base, n, callable⟩, by simp, fun o => ?_⟩
+    rw [hq]
+    simp only [mem_freeOf_iff, List.mem_cons, Option.some.injEq]
+    constructor
+    · rintro ⟨(h1 | h2), h3⟩
+      · exact Or.inl h1.symm
+      · exact Or.inr ⟨h2, h3⟩
+    · rintro (h1 | ⟨h2, h3⟩)
+      · subst h1; exact ⟨Or.inl rfl, hb⟩
+      · exact ⟨Or.inr h2, h3⟩
 
 /-- one loop iteration, on occurrences: the occurrence reported for the popped node (if any) and
 the nodes pushed -/
@@ -170,50 +251,56 @@ theorem visit_spec (aliases : List (String × String)) (it : Item) :
     ∃ (ho : Option Occ), (visit aliases it).1 = ho.map (Occ.toVar aliases) ∧
       ∀ o, o ∈ itemOccs it ↔ (ho = some o ∨ o ∈ queueOccs (visit aliases it).2) := by
   cases it with
-  | kw v => exact ⟨none, rfl, fun o => by simp [visit, itemOccs, queueOccs]⟩
-  | node e =>
+  | kw v b => exact ⟨none, rfl, fun o => by simp [visit, itemOccs, queueOccs]⟩
+  | node e b =>
+    -- a node that is not a chain (and not a call of a chain): nothing reported, children queued
+    have generic : chainOcc e = none → (∀ f a k, e = .call f a k → chainOcc f = none) →
+        (visit aliases (.node e b) = (none, children b e)) →
+        ∃ (ho : Option Occ), (visit aliases (.node e b)).1 = ho.map (Occ.toVar aliases) ∧
+          ∀ o, o ∈ itemOccs (.node e b) ↔ (ho = some o ∨ o ∈ queueOccs (visit aliases (.node e b)).2) := by
+      intro h hc hv
+      refine ⟨none, by rw [hv]; rfl, fun o => ?_⟩
+      rw [hv]
+      simp [itemOccs, queueOccs_children b e h hc]
     cases e with
     | name id =>
-      refine ⟨some ⟨id, id, false⟩, by simp [visit, chainName, Occ.toVar], fun o => ?_⟩
-      simp [visit, chainName, itemOccs, occs, queueOccs, eq_comm]
-    | const r => exact ⟨none, rfl, fun o => by simp [visit, children, itemOccs, occs, queueOccs]⟩
+      obtain ⟨ho, h1, h2⟩ := chain_case aliases b id id false [] [] rfl
+      refine ⟨ho, ?_, ?_⟩
+      · rw [← h1]; simp only [visit, chain, Occ.toVar]; split <;> rfl
+      · simpa [itemOccs, occs, visit, chain] using h2
+    | const r => exact generic rfl (by intro f a k hk; cases hk) rfl
     | attr v a =>
       cases h : chainOcc (.attr v a) with
       | some p =>
-        have hn : chainName (.attr v a) = some p.2 := by rw [chainName_eq, h]; rfl
-        refine ⟨some ⟨p.1, p.2, false⟩, by simp [visit, hn, Occ.toVar], fun o => ?_⟩
-        simp [visit, hn, itemOccs, occs, h, queueOccs, eq_comm]
+        have hn : chain (.attr v a) = some p := h
+        obtain ⟨base, n⟩ := p
+        obtain ⟨ho, h1, h2⟩ := chain_case aliases b base n false [] [] rfl
+        refine ⟨ho, ?_, ?_⟩
+        · rw [← h1]; simp only [visit, hn, Occ.toVar]; split <;> rfl
+        · simpa [itemOccs, occs, h, visit, hn] using h2
       | none =>
-        have hn : chainName (.attr v a) = none := by rw [chainName_eq, h]; rfl
-        refine ⟨none, by simp [visit, hn], fun o => ?_⟩
-        have := queueOccs_children (.attr v a) h (by intro f a k hk; cases hk)
-        simp [visit, hn, itemOccs, this]
+        have hn : chain (.attr v a) = none := h
+        exact generic h (by intro f a k hk; cases hk) (by simp [visit, hn])
     | call f args kws =>
       cases h : chainOcc f with
       | some p =>
-        have hn : chainName f = some p.2 := by rw [chainName_eq, h]; rfl
-        refine ⟨some ⟨p.1, p.2, true⟩, by simp [visit, hn, Occ.toVar], fun o => ?_⟩
-        simp only [visit, hn, itemOccs, occs, h, queueOccs_append, queueOccs_nodes, queueOccs_kws,
-          List.mem_cons, Option.some.injEq]
-        constructor
-        · rintro (h1 | h2)
-          · exact Or.inl h1.symm
-          · exact Or.inr h2
-        · rintro (h1 | h2)
-          · exact Or.inl h1.symm
-          · exact Or.inr h2
+        have hn : chain f = some p := h
+        obtain ⟨base, n⟩ := p
+        obtain ⟨ho, h1, h2⟩ := chain_case aliases b base n true
+          (args.map (fun a => Item.node a b) ++ kws.map (fun k => Item.kw k.2 b)) (occsList args ++ occsKws kws)
+          (by rw [queueOccs_append, queueOccs_nodes, queueOccs_kws, freeOf_append])
+        refine ⟨ho, ?_, ?_⟩
+        · rw [← h1]; simp only [visit, hn, Occ.toVar]; split <;> rfl
+        · simpa [itemOccs, occs, h, visit, hn] using h2
       | none =>
-        have hn : chainName f = none := by rw [chainName_eq, h]; rfl
-        refine ⟨none, by simp [visit, hn], fun o => ?_⟩
-        have := queueOccs_children (.call f args kws) rfl (by intro f' a' k' hk; cases hk; exact h)
-        simp [visit, hn, itemOccs, this]
-    | unop o x => exact ⟨none, rfl, fun o => by simp [visit, itemOccs, queueOccs, children, occs]⟩
-    | binop o l r => exact ⟨none, rfl, fun o => by simp [visit, itemOccs, queueOccs, children, occs]⟩
-    | subscript v i => exact ⟨none, rfl, fun o => by simp [visit, itemOccs, queueOccs, children, occs]⟩
-    | seq k es =>
-      refine ⟨none, rfl, fun o => ?_⟩
-      have := queueOccs_children (.seq k es) rfl (by intro f a k' hk; cases hk)
-      simp [visit, itemOccs, this]
+        have hn : chain f = none := h
+        exact generic rfl (by intro f' a' k' hk; cases hk; exact h) (by simp [visit, hn])
+    | unop o x => exact generic rfl (by intro f a k hk; cases hk) rfl
+    | binop o l r => exact generic rfl (by intro f a k hk; cases hk) rfl
+    | subscript v i => exact generic rfl (by intro f a k hk; cases hk) rfl
+    | seq k es => exact generic rfl (by intro f a k' hk; cases hk) rfl
+    | lambda ps ds body => exact generic rfl (by intro f a k hk; cases hk) rfl
+    | comp k elts gens => exact generic rfl (by intro f a k' hk; cases hk) rfl
 
 /-- what the loop returns, as a set: the accumulator plus the variable of every occurrence below
 the queued nodes -/
@@ -269,58 +356,77 @@ theorem bfs_mem (aliases : List (String × String)) :
 theorem itemsSize_append (a b : List Item) : itemsSize (a ++ b) = itemsSize a + itemsSize b := by
   simp [itemsSize, List.sum_append]
 
-theorem itemsSize_nodes (es : List Expr) : itemsSize (es.map Item.node) = sizeList es := by
+theorem itemsSize_cons (it : Item) (q : List Item) : itemsSize (it :: q) = it.size + itemsSize q := by
+  simp [itemsSize]
+
+theorem itemsSize_nodes (b : List String) (es : List Expr) :
+    itemsSize (es.map (fun e => Item.node e b)) = sizeList es := by
   induction es with
   | nil => rfl
-  | cons e es ih => simp only [itemsSize, List.map_cons, List.sum_cons, Item.size, sizeList] at ih ⊢; rw [ih]
+  | cons e es ih => simp only [List.map_cons, itemsSize_cons, Item.size, sizeList, ih]
 
-theorem itemsSize_kws (ks : List (String × Expr)) :
-    itemsSize (ks.map (fun k => Item.kw k.2)) = sizeKws ks := by
+theorem itemsSize_kws (b : List String) (ks : List (String × Expr)) :
+    itemsSize (ks.map (fun k => Item.kw k.2 b)) = sizeKws ks := by
   induction ks with
   | nil => rfl
-  | cons k ks ih => simp only [itemsSize, List.map_cons, List.sum_cons, Item.size, sizeKws] at ih ⊢; rw [ih]
+  | cons k ks ih => simp only [List.map_cons, itemsSize_cons, Item.size, sizeKws, ih]
 
-theorem itemsSize_children (e : Expr) : itemsSize (children e) + 1 ≤ e.size := by
+theorem itemsSize_genItems (outer inner : List String) :
+    ∀ (first : Bool) (gs : List Gen), itemsSize (genItems outer inner first gs) ≤ sizeGens gs
+  | _, [] => by simp [genItems, itemsSize, sizeGens]
+  | first, .mk _ it ifs :: gs => by
+    have ih := itemsSize_genItems outer inner false gs
+    simp only [genItems, itemsSize_cons, itemsSize_append, itemsSize_nodes, Item.size, sizeGens]
+    omega
+
+theorem itemsSize_children (b : List String) (e : Expr) : itemsSize (children b e) + 1 ≤ e.size := by
   cases e with
   | name id => simp [children, itemsSize, Expr.size]
   | const r => simp [children, itemsSize, Expr.size]
   | attr v a => simp [children, itemsSize, Expr.size, Item.size]; omega
   | call f args kws =>
-    have : children (.call f args kws) = [Item.node f] ++ (args.map Item.node ++ kws.map (fun k => Item.kw k.2)) := rfl
-    rw [this, itemsSize_append, itemsSize_append, itemsSize_nodes, itemsSize_kws]
-    simp [itemsSize, Item.size, Expr.size]; omega
+    simp only [children, itemsSize_cons, itemsSize_append, itemsSize_nodes, itemsSize_kws, Item.size, Expr.size]
+    omega
   | unop o x => simp [children, itemsSize, Expr.size, Item.size]; omega
   | binop o l r => simp [children, itemsSize, Expr.size, Item.size]; omega
   | subscript v i => simp [children, itemsSize, Expr.size, Item.size]; omega
   | seq k es =>
-    have : children (.seq k es) = es.map Item.node := rfl
-    rw [this, itemsSize_nodes]; simp [Expr.size]; omega
+    simp only [children, itemsSize_nodes, Expr.size]; omega
+  | lambda ps ds body =>
+    simp only [children, itemsSize_append, itemsSize_nodes, itemsSize_cons, Item.size, Expr.size]
+    simp [itemsSize]; omega
+  | comp k elts gens =>
+    have := itemsSize_genItems b (b ++ gensTargets gens) true gens
+    simp only [children, itemsSize_append, itemsSize_nodes, Expr.size]
+    omega
 
 theorem visit_size (aliases : List (String × String)) (it : Item) :
     itemsSize (visit aliases it).2 + 1 ≤ it.size := by
   cases it with
-  | kw v => simp [visit, itemsSize, Item.size]; omega
-  | node e =>
-    have hc := itemsSize_children e
+  | kw v b => simp [visit, itemsSize, Item.size]; omega
+  | node e b =>
+    have hc := itemsSize_children b e
     cases e with
     | call f args kws =>
       simp only [visit]
-      cases chainName f with
+      cases chain f with
       | none => simpa [Item.size] using hc
-      | some n =>
+      | some p =>
         simp only [itemsSize_append, itemsSize_nodes, itemsSize_kws, Item.size, Expr.size]
         omega
     | attr v a =>
       simp only [visit]
-      cases chainName (.attr v a) with
+      cases chain (.attr v a) with
       | none => simpa [Item.size] using hc
-      | some n => simp [itemsSize, Item.size, Expr.size]
-    | name id => simp [visit, chainName, itemsSize, Item.size, Expr.size]
+      | some p => simp [itemsSize, Item.size, Expr.size]
+    | name id => simp [visit, chain, itemsSize, Item.size, Expr.size]
     | const r => simpa [visit, Item.size] using hc
     | unop o x => simpa [visit, Item.size] using hc
     | binop o l r => simpa [visit, Item.size] using hc
     | subscript v i => simpa [visit, Item.size] using hc
     | seq k es => simpa [visit, Item.size] using hc
+    | lambda ps ds body => simpa [visit, Item.size] using hc
+    | comp k elts gens => simpa [visit, Item.size] using hc
 
 theorem Item.size_pos (it : Item) : 1 ≤ it.size := by
   have := visit_size [] it; omega
@@ -346,9 +452,9 @@ theorem bfs_isSome (aliases : List (String × String)) :
 
 theorem astVariables_mem (e : Expr) (aliases : List (String × String)) (v : Var) :
     v ∈ astVariables e aliases ↔ ∃ o ∈ occs e, v = o.toVar aliases := by
-  obtain ⟨r, hr⟩ := bfs_isSome aliases e.size [.node e] [] (by simp [itemsSize, Item.size])
+  obtain ⟨r, hr⟩ := bfs_isSome aliases e.size [.node e []] [] (by simp [itemsSize, Item.size])
   have := bfs_mem aliases _ _ _ _ hr v
   simp only [astVariables, hr]
-  simpa [queueOccs, itemOccs] using this
+  simpa [queueOccs, itemOccs, freeOf_nil_left] using this
 
 end FormulaicVerif.Proofs.C17
